@@ -225,6 +225,10 @@ func (ef *Filter) Process(ctx context.Context, e *eventlogger.Event) (*eventlogg
 		return nil, fmt.Errorf("%s: %w", op, err)
 	}
 
+	// filteredCopy is set when the payload had to be replaced by an addressable
+	// copy, which is then forwarded in place of the original payload.
+	var filteredCopy bool
+
 	switch {
 	case pType == reflect.TypeOf("") || pType == reflect.TypeOf([]uint8{}):
 		if !payloadValue.CanSet() {
@@ -294,6 +298,15 @@ func (ef *Filter) Process(ctx context.Context, e *eventlogger.Event) (*eventlogg
 			}
 		}
 	case pKind == reflect.Struct:
+		// a struct which was passed by value isn't addressable, so none of its
+		// fields could be set and they'd all be forwarded unfiltered: filter an
+		// addressable copy of it and forward that copy instead.
+		if !payloadValue.CanSet() {
+			settable := reflect.New(pType).Elem()
+			settable.Set(payloadValue)
+			payloadValue = settable
+			filteredCopy = true
+		}
 		if err := ef.filterField(ctx, payloadValue, filterOverrides, tm, opts...); err != nil {
 			return nil, fmt.Errorf("%s: %w", op, err)
 		}
@@ -303,6 +316,9 @@ func (ef *Filter) Process(ctx context.Context, e *eventlogger.Event) (*eventlogg
 		return nil, fmt.Errorf("%s: %w", op, err)
 	}
 
+	if filteredCopy {
+		e.Payload = payloadValue.Interface()
+	}
 	return e, nil
 }
 
